@@ -117,6 +117,75 @@ fn check_cone(run: &Run, s: &Sym, mirror: bool, h: u32, t: u32, reduced: bool) {
     }
 }
 
+/// Range-restricted builds (`SymTngBuilder::set_h_range`, used by the repository's long experiments): the
+/// builder keeps only the vertices of Kh-degree h0..=h1.  The cone in degree i is CKh^i + CKh^{i-1}, so the
+/// involutive homology in degree i needs CKh^{i-2..=i+1}; it must equal the reference wherever each of these
+/// degrees lies in the window or outside the degrees -n_minus..=n_plus of the diagram.  Every window
+/// inside -n_minus-1..=n_plus+1.  (For a window that does not contain 0 the canonical cycles are cleared:
+/// the builder does not drop them - its own TODO - and they are not what this check is about.)
+fn check_cone_windows(run: &Run, s: &Sym, mirror: bool, h: u32, t: u32, reduced: bool) {
+    if reduced && t != 0 {
+        return;
+    }
+    let orig_code = s.code.clone();
+    let ms;
+    let s = if mirror {
+        let code: Vec<[usize; 4]> = (0..s.d.n).map(|c| { let x = s.code[c]; if s.d.dir[c] { [x[3], x[0], x[1], x[2]] } else { [x[1], x[2], x[3], x[0]] } }).collect();
+        match make_sym(format!("{}:mirror", s.name.splitn(2, ':').nth(1).unwrap_or(&s.name)), code) {
+            Some(m) => { ms = m; &ms }
+            None => return,
+        }
+    } else {
+        s
+    };
+    let base = reduced.then(|| s.labels.iter().position(|&l| l == 1).unwrap());
+    let Some(reference) = khovanov_involutive(&s.d, &s.tau, &Fp(h), &Fp(t), base) else { return };
+    let want = total_dims(&reference.total);
+    let (lo, hi) = (-(s.d.n_neg() as i64), s.d.n_pos() as i64);
+    for h0 in lo - 1..=hi + 1 {
+        for h1 in h0..=hi + 1 {
+            let key = format!("khi-window:{}:mirror={}:h={h},t={t},red={}:window={h0}..={h1}", s.name, mirror as u8, reduced as u8);
+            let detail = || json!({"pd": s.code, "mirror": mirror, "h": h, "t": t, "reduced": reduced, "window": [h0, h1]});
+            run.add("evaluations", 1);
+            run.add("window_runs", 1);
+            let lib = catch(|| {
+                let l = InvLink::sinv_knot_from_code(orig_code.clone());
+                let l = if mirror { l.mirror() } else { l };
+                let mut b = SymTngBuilder::<FF2>::new(&l, &FF2::from(h as i32), &FF2::from(t as i32), reduced);
+                if !(h0 <= 0 && 0 <= h1) {
+                    b.set_elements(vec![]);
+                }
+                b.set_h_range(h0 as isize..=h1 as isize);
+                b.preprocess();
+                b.process_all();
+                b.finalize();
+                let c = b.into_khi_complex();
+                c.check_d_all();
+                let hm = KhIHomology::from(&c);
+                let tot: BTreeMap<i64, usize> = hm.support().map(|i| (i as i64, hm[i].rank())).collect();
+                tot
+            });
+            match lib {
+                Ok(tot) => {
+                    let avail = |j: i64| (h0 <= j && j <= h1) || j < lo || j > hi;
+                    for i in h0..=h1 + 1 {
+                        if !(i - 2..=i + 1).all(avail) {
+                            continue;
+                        }
+                        run.add("window_degrees_compared", 1);
+                        let (a, b) = (tot.get(&i).copied().unwrap_or(0), want.get(&i).copied().unwrap_or(0));
+                        if a != b {
+                            run.fail(&key, &format!("degree {i} (all four Kh degrees it needs are available): dimension {a}, cone of 1+tau on the cube has {b}"), detail());
+                            break;
+                        }
+                    }
+                }
+                Err(p) => run.fail(&key, &format!("range-restricted build panicked: {p}"), detail()),
+            }
+        }
+    }
+}
+
 /// F2[H] coefficients (h = H, t = 0): the complex is read entry by entry, evaluated at H = 0 and
 /// H = 1 with reference arithmetic, and the dimensions of its homology over F2 must be those of
 /// the reference cone built directly with h = 0 / 1.  Also d∘d = 0 and homogeneity (deg H = -2).
@@ -410,6 +479,15 @@ fn main() {
                 check_sym_kh(&run, s, h, t, reduced);
             }
         }
+        // range-restricted builds: reflection-type inputs only (the rotation-type ones are the known finding)
+        if (s.name.starts_with("reflection") || s.name.starts_with("both")) && s.d.n <= if th { 6 } else { 5 } && !s.name.contains("kink") {
+            run.add("window_inputs", 1);
+            for mirror in [false, true] {
+                for (h, t, reduced) in [(0, 0, false), (0, 0, true), (1, 0, false), (0, 1, false), (1, 0, true)] {
+                    check_cone_windows(&run, s, mirror, h, t, reduced);
+                }
+            }
+        }
         for reduced in [false, true] {
             check_cone_poly(&run, s, reduced);
         }
@@ -420,6 +498,7 @@ fn main() {
         "distinct_nontrivial": run.get("symmetric_inputs"),
         "rule": "inputs = built-in strongly invertible table entries (<= 6 crossings quick, all thorough) + every 1-component planar diagram with <= 3 (thorough 4) crossings renumbered along the knot from every starting edge, kept iff the loader's involution acts on the crossings (reference test; the filter is validated on the whole table first); x mirror x (h,t) in F2^2 x reduced/unreduced; oracle = dimensions of the homology of the reference cone of 1+tau on the reference cube",
         "table_entries": run.get("table_entries"),
+        "range_restricted_builds": {"rule": "SymTngBuilder::new + set_h_range(h0..=h1) + preprocess + process_all + finalize + into_khi_complex on the reflection-type inputs with <= 5 (thorough 6) crossings, every window inside -n_minus-1..=n_plus+1, x mirror x 5 configurations; dimensions compared with the reference cone in every degree whose four Kh degrees are inside the window or outside the diagram's degrees; check_d_all on every result", "inputs": run.get("window_inputs"), "runs": run.get("window_runs"), "degrees_compared": run.get("window_degrees_compared")},
         "exhaustive": true,
     });
     run.finish(
